@@ -2,6 +2,7 @@ package props
 
 import (
 	"bytes"
+	"encoding/binary"
 	"encoding/json"
 	"errors"
 	"flag"
@@ -240,6 +241,36 @@ func c15(x *mon.Ctx) {
 	x.Extra["exhaustive"] = true
 
 	realDeviceThroughEmulatedDriver(x)
+
+	// ---- failure statuses with a buffer that LOOKS like a structured reply (a big- or little-endian length in its first bytes, as
+	//      the quote generation service frames its messages) and an OutLen at the end of the buffer: still an error, no crash —
+	//      whatever a client makes of the buffer of a failed request, it reads it within the buffer
+	{
+		n := 0
+		for _, st := range []uint64{labi.GetQuoteError, labi.GetQuoteServiceUnavailable, labi.GetQuoteInFlight, 0x8000000000000002, 1} {
+			for _, ol := range []uint32{0, 4, 1020, labi.ReqBufSize - 4, labi.ReqBufSize - 3, labi.ReqBufSize - 1, labi.ReqBufSize, labi.ReqBufSize + 1, 0xffffffff} {
+				for _, ln := range []uint32{0, 4, labi.ReqBufSize - 4, labi.ReqBufSize - 3, labi.ReqBufSize, labi.ReqBufSize + 1, 0x00004000, 0x7fffffff, 0xffffffff} {
+					for _, be := range []bool{true, false} {
+						q := randBytes(r, labi.ReqBufSize)
+						if be {
+							binary.BigEndian.PutUint32(q, ln)
+						} else {
+							binary.LittleEndian.PutUint32(q, ln)
+						}
+						s := &devScript{Status: st, OutLen: ol, Quote: q, ReportData: randBytes(r, 64), TdReport: randBytes(r, 1024), FillRest: 0x11}
+						p, _ := deviceProblem(s)
+						param := fmt.Sprintf("status=%#x outlen=%d prefix=%#x bigendian=%v", st, ol, ln, be)
+						if p != "" {
+							x.Violation("failure-status-with-framed-buffer", param, p, "device", s)
+						}
+						x.Note("failure-status-with-framed-buffer", param, false, strings.HasPrefix(p, "GetRawQuote panics"), p == "")
+						n++
+					}
+				}
+			}
+		}
+		x.Require("failure-status-with-framed-buffer", 0, n, n)
+	}
 
 	// ---- the bytes handed to the caller are the caller's: a later call with another answer must not change them
 	for k := 0; k < 8; k++ {
